@@ -9,12 +9,17 @@ CONSTANTS
   MaxClock = 3
   MaxHist = 99
   Shapes = {"str"}
+  CasSet = {FALSE}
   FixSets = {{}}
   Causes = {"peer"}
   KeepCreatedAt = FALSE
   UseRequestId = FALSE
+  IdxRenew = "checkSet"
+  RecRenew = "set"
   Lookups = FALSE
   WritingLookup = FALSE
+  InFlight = FALSE
+  ClientState = FALSE
   Emit = FALSE
   Only = "all"
 INIT Init
